@@ -353,3 +353,125 @@ def c19_case(job, t0):
     r = _result(uname, rname, "c19:%d" % reg, fails, t0, [["MkConnected/MkDisjoint*", nperm], ["MakeRegion", [1, reg]]])
     r["stats"] = {"perms": nperm}
     return r
+
+
+# ------------------------------------------------------------------ C14
+@guarded
+def inter_case(job, t0):
+    """JordanCurve.intersection against the specification's crossings"""
+    uname, rname, row, opts = job
+    st, real, w = _w(uname, rname)
+    ra, rb = row["a"], row["b"]
+    A, B = w.canonical(ra), w.canonical(rb)
+    fails = []
+    if kind_of(A) in "EW" or kind_of(B) in "EW":
+        return _result(uname, rname, "x:%d:%d" % (ra, rb), fails, t0, [], row={"op": "x", "a": ra, "b": rb, "res": 0, "cls": row["cls"]})
+    exact = w.exact_mode(())
+    tol = 0 if exact else 1e-6
+    look = w.lookup(())
+
+    def cyc(j):
+        return [look(s.ctrlpoints[0]) for s in j.segments]
+
+    def expected(JA, JB):
+        ca, cb = cyc(JA), cyc(JB)
+        out = []
+        for x in row["xing"]:
+            la, lb = tuple(x["a"]["loop"]), tuple(x["b"]["loop"])
+            if la not in ca or lb not in cb:
+                continue
+            loopa = [l for l in st.loops(ra) if l[0] == la][0]
+            loopb = [l for l in st.loops(rb) if l[0] == lb][0]
+            if set(loopa) != set(p for p in ca if p in loopa) or not set(loopa) <= set(ca) or not set(loopb) <= set(cb):
+                continue
+            sa = ca.index(loopa[x["a"]["edge"] - 1])
+            sb = cb.index(loopb[x["b"]["edge"] - 1])
+            out.append((sa, sb, F(x["a"]["par"][0], x["a"]["par"][1]), F(x["b"]["par"][0], x["b"]["par"][1])))
+        return sorted(out)
+
+    def close(p, q):
+        return p == q if exact else abs(float(p) - float(q)) <= tol
+
+    npairs = 0
+    for JA in A.jordans:
+        for JB in B.jordans:
+            npairs += 1
+            exp = expected(JA, JB)
+            try:
+                got = JA.intersection(JB)
+                gots = JB.intersection(JA)
+                amp = JA & JB
+            except BaseException as ex:  # noqa
+                fails.append(Failure("C14", "intersection raised", exc=repr(ex), a=ra, b=rb))
+                continue
+            for (a, b, u, v) in got:
+                if u is None:
+                    fails.append(Failure("C14", "(None, None) reported for segments that are not identical", a=ra, b=rb, entry=(a, b)))
+                    continue
+                if not (0 <= a < len(JA.segments) and 0 <= b < len(JB.segments) and 0 <= u <= 1 and 0 <= v <= 1):
+                    fails.append(Failure("C14", "entry out of range", a=ra, b=rb, entry=(a, b, u, v)))
+                    continue
+                pa, pb = JA.segments[a](u), JB.segments[b](v)
+                if not (pa == pb):
+                    fails.append(Failure("C14", "A.segments[a](u) != B.segments[b](v)", a=ra, b=rb, entry=(a, b, u, v)))
+            gg = sorted((a, b, u, v) for (a, b, u, v) in got if u is not None)
+            if len(gg) != len(exp) or any(e[0] != g[0] or e[1] != g[1] or not close(e[2], g[2]) or not close(e[3], g[3]) for e, g in zip(exp, gg)):
+                fails.append(Failure("C14", "reported crossings differ from the specification", a=ra, b=rb, expected=exp, got=gg))
+            sw = sorted((b, a, v, u) for (a, b, u, v) in gots if u is not None)
+            if len(sw) != len(gg) or any(x[0] != y[0] or x[1] != y[1] or not close(x[2], y[2]) or not close(x[3], y[3]) for x, y in zip(sw, gg)):
+                fails.append(Failure("C14", "swapping the operands does not swap the roles", a=ra, b=rb, ab=gg, ba=sw))
+            if sorted(amp) != sorted(JA.intersection(JB, equal_beziers=False, end_points=False)):
+                fails.append(Failure("C14", "A & B differs from intersection(equal_beziers=False, end_points=False)", a=ra, b=rb))
+            if exact:
+                for (a, b, u, v) in gg:
+                    if isinstance(u, float) or isinstance(v, float):
+                        fails.append(Failure("C13", "crossing parameter is a float for rational input", a=ra, b=rb, entry=(a, b, u, v)))
+    if len({(tuple(x["pt"])) for x in row["xing"]}) % 2:
+        fails.append(Failure("C14", "odd number of crossings in the specification", a=ra, b=rb))
+    # after splitting both shapes at the crossings (as the operators do): crossings at vertices
+    try:
+        _ = A | B if row["reaches"] else None
+        for JA in A.jordans:
+            for JB in B.jordans:
+                full = JA.intersection(JB)
+                noend = JA.intersection(JB, end_points=False)
+                ca, cb = cyc(JA), cyc(JB)
+                pts = {tuple(x["pt"]) for x in row["xing"] if tuple(x["pt"]) in ca and tuple(x["pt"]) in cb}
+                endp = [(a, b, u, v) for (a, b, u, v) in full if u is not None]
+                if not row["reaches"]:
+                    continue
+                covered = set()
+                for (a, b, u, v) in endp:
+                    pa, pb = JA.segments[a](u), JB.segments[b](v)
+                    if not (pa == pb):
+                        fails.append(Failure("C14", "A.segments[a](u) != B.segments[b](v) (after splitting)", a=ra, b=rb, entry=(a, b, u, v)))
+                    covered.add(look(pa))
+                if not pts <= covered:
+                    fails.append(Failure("C14", "a crossing at an existing vertex is not reported", a=ra, b=rb, missing=sorted(pts - covered), got=endp))
+                if exact:
+                    bad = [e for e in endp if not (e[2] in (0, 1) and e[3] in (0, 1))]
+                    if bad or len(endp) != 4 * len(pts):
+                        fails.append(Failure("C14", "crossings at existing vertices not reported as the four end-point entries (rational data)", a=ra, b=rb, got=endp, npts=len(pts)))
+                if [e for e in noend if e[2] is not None and e[2] in (0, 1) and e[3] in (0, 1)]:
+                    fails.append(Failure("C14", "end_points=False keeps end-point entries", a=ra, b=rb, got=noend))
+                want_noend = sorted(e for e in full if e[2] is None or not (e[2] in (0, 1) and e[3] in (0, 1)))
+                if sorted(noend, key=repr) != sorted(want_noend, key=repr):
+                    fails.append(Failure("C14", "end_points=False does not filter exactly the end-point entries", a=ra, b=rb, full=full, noend=noend))
+    except BaseException as ex:  # noqa
+        fails.append(Failure("C14", "intersection after splitting raised", exc=repr(ex), a=ra, b=rb))
+    # identical curves: (None, None) exactly for identical segments
+    if ra == rb or not row["xing"]:
+        J = A.jordans[0] if kind_of(A) in "SCD" else None
+        if J is not None:
+            K = _copy.deepcopy(J)
+            n = len(J.segments)
+            got = J.intersection(K)
+            nn = sorted((a, b) for (a, b, u, v) in got if u is None)
+            if nn != [(i, i) for i in range(n)]:
+                fails.append(Failure("C14", "(None, None) entries are not exactly the identical segments", a=ra, got=nn, n=n))
+            if any(u is None for (_, _, u, _) in J.intersection(K, equal_beziers=False)):
+                fails.append(Failure("C14", "equal_beziers=False keeps (None, None) entries", a=ra))
+            if [e for e in J.intersection(K, equal_beziers=False, end_points=False) if e[2] is not None and not (0 < e[2] < 1 or 0 < e[3] < 1)]:
+                fails.append(Failure("C14", "end_points=False keeps end-point entries (identical curves)", a=ra))
+    r = _result(uname, rname, "x:%d:%d" % (ra, rb), fails, t0, [["MakeRegion", [1, ra]], ["MakeRegion", [2, rb]], ["QInter*", npairs]], row={"op": "x", "a": ra, "b": rb, "res": 0, "cls": row["cls"]})
+    return r
